@@ -3,6 +3,7 @@
  * SPDX-License-Identifier: Apache-2.0
  */
 
+use crate::config::Scale;
 use crate::kernel::balance::{BTNs, Balance, Deltas};
 use crate::kernel::report_item_selector::{
     BalanceAllSelector, BalanceByAccountSelector, BalanceSelector,
@@ -59,9 +60,12 @@ impl BalanceReporter {
                 .map(|btn| {
                     let d = f(btn);
                     // include space for '+-' to the length always
-                    format!("{:+.prec$}", d, prec = bal_settings.scale.get_precision(&d))
-                        .chars()
-                        .count()
+                    let prec = bal_settings.scale.get_precision(&d);
+                    let txt = Scale::with_decimals(
+                        &d.round_dp_with_strategy(prec as u32, RoundingStrategy::ToZero),
+                        prec,
+                    );
+                    txt.chars().count() + usize::from(!d.is_sign_negative())
                 })
                 .fold(0, max)
         };
@@ -130,21 +134,12 @@ impl BalanceReporter {
 
         if !bal_report.is_empty() {
             for btn in &bal_report.bal {
-                let prec_1 = bal_settings.scale.get_precision(&btn.account_sum);
-                let prec_2 = bal_settings.scale.get_precision(&btn.sub_acc_tree_sum);
-
                 writeln!(
                     writer,
-                    "{left_ruler}{:>asl$.prec_1$}{:>width$}{:>satsl$.prec_2$}{}{}",
-                    btn.account_sum.round_dp_with_strategy(
-                        prec_1 as u32,
-                        RoundingStrategy::MidpointAwayFromZero
-                    ),
+                    "{left_ruler}{:>asl$}{:>width$}{:>satsl$}{}{}",
+                    bal_settings.scale.format(&btn.account_sum),
                     "",
-                    btn.sub_acc_tree_sum.round_dp_with_strategy(
-                        prec_2 as u32,
-                        RoundingStrategy::MidpointAwayFromZero
-                    ),
+                    bal_settings.scale.format(&btn.sub_acc_tree_sum),
                     make_commodity_field(comm_max_len, btn),
                     btn.acctn.atn,
                     asl = left_sum_len,
@@ -172,14 +167,10 @@ impl BalanceReporter {
                     .map_or(String::default(), |comm| comm.name.clone())
             });
             for delta in deltas {
-                let prec = bal_settings.scale.get_precision(delta.1);
                 writeln!(
                     writer,
-                    "{left_ruler}{:>width$.prec$}{}",
-                    delta.1.round_dp_with_strategy(
-                        prec as u32,
-                        RoundingStrategy::MidpointAwayFromZero
-                    ),
+                    "{left_ruler}{:>width$}{}",
+                    bal_settings.scale.format(delta.1),
                     delta
                         .0
                         .as_ref()
